@@ -502,8 +502,11 @@ fn scale(ctx: &Ctx, rep: &mut Report) {
 }
 
 // ------------------------------------------------------------------ C10
-fn apply_g(x: f64, g: u8) -> f64 {
-    match g { 0 => 3.0 * x + 1.0, 1 => x * x * x, 2 => (x / 4.0).exp(), 3 => (x + 2.0).ln(), _ => x }
+fn apply_g(x: f64, g: u8, wide: bool) -> f64 {
+    // 5..7: maps that compress the values into a tiny absolute range / expand them (an absolute
+    // tolerance or threshold anywhere in the code shows up under these)
+    let (tiny, base, step, big) = if wide { (2f64.powi(-60), 2f64.powi(-55), 2f64.powi(-62), 2f64.powi(40)) } else { (2f64.powi(-30), 2f64.powi(-25), 2f64.powi(-32), 2f64.powi(20)) };
+    match g { 0 => 3.0 * x + 1.0, 1 => x * x * x, 2 => (x / 4.0).exp(), 3 => (x + 2.0).ln(), 5 => x * tiny, 6 => base + x * step, 7 => x * big, _ => x }
 }
 
 fn order_case(rep: &mut Report, c: &AlgoCase, gbits: &[u64], gname: &str, map: &dyn Fn(u64) -> u64) {
@@ -541,7 +544,7 @@ fn order_only(ctx: &Ctx, rep: &mut Report) {
     for c in cases {
         tick(&ctx.progress, &c.describe());
         let v = vals_of(&c);
-        for g in 0..5u8 {
+        for g in 0..8u8 {
             // table value -> g(value), in the case's width
             let mut keys: Vec<u64> = c.bits.clone(); keys.sort(); keys.dedup();
             let mut table: HashMap<u64, u64> = HashMap::new();
@@ -550,7 +553,7 @@ fn order_only(ctx: &Ctx, rep: &mut Report) {
                 let mut sorted: Vec<f64> = v.clone(); sorted.sort_by(|a, b| a.partial_cmp(b).unwrap()); sorted.dedup();
                 for (&b, &x) in c.bits.iter().zip(&v) { let r = sorted.iter().position(|&y| y == x).unwrap() as f64; table.insert(b, to_bits(&[r], c.wide)[0]); }
             } else {
-                for (&b, &x) in c.bits.iter().zip(&v) { table.insert(b, to_bits(&[apply_g(x, g)], c.wide)[0]); }
+                for (&b, &x) in c.bits.iter().zip(&v) { table.insert(b, to_bits(&[apply_g(x, g, c.wide)], c.wide)[0]); }
             }
             // g must be strictly increasing and injective on the values after rounding
             let mut pairs: Vec<(f64, f64)> = c.bits.iter().zip(&v).map(|(b, &x)| { let gb = table[b]; (x, if c.wide { f64::from_bits(gb) } else { f32::from_bits(gb as u32) as f64 }) }).collect();
@@ -560,9 +563,9 @@ fn order_only(ctx: &Ctx, rep: &mut Report) {
             if !ok { continue; }
             let gbits: Vec<u64> = c.bits.iter().map(|b| table[b]).collect();
             let t2 = table.clone();
-            order_case(rep, &c, &gbits, ["3x+1", "x^3", "exp(x/4)", "ln(x+2)", "rank"][g as usize], &move |b| *t2.get(&b).unwrap_or(&u64::MAX));
+            order_case(rep, &c, &gbits, ["3x+1", "x^3", "exp(x/4)", "ln(x+2)", "rank", "x*2^-60|-30", "2^-55+x*2^-62|2^-25+x*2^-32", "x*2^40|20"][g as usize], &move |b| *t2.get(&b).unwrap_or(&u64::MAX));
         }
-        if c.n == 4 { rep.sample(format!("{} under g in 3x+1, x^3, exp, ln, rank", c.describe())); }
+        if c.n == 4 { rep.sample(format!("{} under g in 3x+1, x^3, exp, ln, rank, tiny scale, tiny affine, big scale", c.describe())); }
     }
     // exhaustively all weak orderings of the entries for n <= 4 (sampled for n = 5)
     let mut weak = 0u64;
